@@ -128,6 +128,24 @@ func VPH_C22_verifier() {
 	e1, h1 := mk(t1)
 	w1 := verfOf(e1, h1, true)
 	vpSetClock(t1 + vpI64("later")&0xffffffff) // time passes during the instance's life
+	// requests that fail in between do not end the instance's life: a WRITE the server refuses
+	// (offset beyond a signed file offset) and one the backend fails (symbolic errno on WriteAt or Sync)
+	switch vpChoose("failing-request-in-between", 0, 3) {
+	case 1:
+		vpReach("refused-write-in-between")
+		var fb vpBuf
+		fb.fh(h1).u64(1 << 63).u32(1).u32(2).opaque([]byte{9})
+		e1.call(NFSPROC3_WRITE, fb.Bytes())
+	case 2, 3:
+		vpReach("backend-fault-in-between")
+		errno := vpU32("errno")
+		vpAssume(vpAnd(errno >= 1, errno <= 133))
+		e1.fs.failOp, e1.fs.failErr = []string{"WriteAt", "Sync"}[vpChoose("failing-op", 0, 1)], vpErr("fault", "/d/x", syscall.Errno(errno))
+		var fb vpBuf
+		fb.fh(h1).u64(0).u32(1).u32(2).opaque([]byte{9})
+		e1.call(NFSPROC3_WRITE, fb.Bytes())
+		e1.fs.failOp, e1.fs.failErr = "", nil
+	}
 	c1 := verfOf(e1, h1, false)
 	w1b := verfOf(e1, h1, true)
 	vpAssert(vpAnd(w1 == c1, w1 == w1b), "verifier-constant-within-instance")
